@@ -255,6 +255,12 @@ func AtomUnits() []*Unit {
 			m := b.Msg("NamesGogo")
 			m.F("size", 1, Int32, Optional).F("proto_size", 2, Int64, Optional).F("equal", 3, Bool, Optional)
 			m.F("go_string", 4, String, Optional).F("verbose_equal", 5, Bytes, Optional).F("marshal_to", 6, Uint32, Optional)
+			// the same names on fields of other kinds and cardinalities (every snippet has to apply the renaming)
+			part := b.Msg("NamePart")
+			part.F("v", 1, Int32, Optional)
+			k := b.Msg("NamesGogoKinds")
+			k.FMsg("size", 1, part.Full(), Optional).F("proto_size", 2, String, Repeated).FMsg("marshal_to", 3, part.Full(), Repeated)
+			k.Map("equal", 4, String, Int32, "").Map("go_string", 5, Int32, Message, part.Full())
 			u := b.Unit()
 			u.SpecialNames = []string{"Size", "ProtoSize", "Equal", "GoString", "VerboseEqual", "MarshalTo"}
 			u.NoGV2 = true
